@@ -143,9 +143,12 @@ def hash_seeds(seed, K):
     return out
 
 
-def run_servers(worlds, hseeds, workdir, parallel=16, timeout=3000):
+def run_servers(worlds, hseeds, workdir, parallel=16, timeout=3000, after=None):
     """Run one fresh interpreter per hash seed over the same worlds. Returns
-    {label: [result per world]}; label = index in hseeds (seeds may repeat)."""
+    {label: [result per world]}; label = index in hseeds (seeds may repeat).
+    after = {j: i}: interpreter j starts only when interpreter i has finished and then
+    inherits i's private HOME/temp/cache directories ("the second run on one machine")."""
+    after = after or {}
     os.makedirs(workdir, exist_ok=True)
     wpath = os.path.join(workdir, "worlds.jsonl")
     with open(wpath, "w") as f:
@@ -154,16 +157,25 @@ def run_servers(worlds, hseeds, workdir, parallel=16, timeout=3000):
     pending = list(enumerate(hseeds))
     running = []
     results = {}
+    done = set()
     errors = []
     t_end = time.monotonic() + timeout
     while pending or running:
-        while pending and len(running) < parallel:
-            i, h = pending.pop(0)
+        for (i, h) in list(pending):
+            if len(running) >= parallel:
+                break
+            if i in after and after[i] not in done:
+                if after[i] not in [x[0] for x in running] and after[i] not in [x[0] for x in pending]:
+                    done.add(after[i])      # predecessor failed; do not wait for ever
+                continue
+            pending.remove((i, h))
             env = dict(os.environ)
             env["PYTHONHASHSEED"] = str(h)
             env["PYTHONDONTWRITEBYTECODE"] = "1"
             out = os.path.join(workdir, "out.%d.jsonl" % i)
-            p = subprocess.Popen([sys.executable, "-m", "bbsim.c19server", wpath, out], cwd=VERIF, env=env,
+            priv = os.path.join(workdir, "priv.%03d" % after.get(i, i))
+            os.makedirs(priv, exist_ok=True)
+            p = subprocess.Popen([sys.executable, "-m", "bbsim.c19server", wpath, out, priv], cwd=VERIF, env=env,
                                  stdout=subprocess.DEVNULL, stderr=subprocess.PIPE)
             running.append((i, h, p, out))
         time.sleep(0.05)
@@ -174,9 +186,11 @@ def run_servers(worlds, hseeds, workdir, parallel=16, timeout=3000):
                 if time.monotonic() > t_end:
                     p.kill()
                     errors.append("interpreter %d (hash seed %d) timed out" % (i, h))
+                    done.add(i)
                 else:
                     still.append((i, h, p, out))
                 continue
+            done.add(i)
             err = p.stderr.read().decode("utf-8", "replace")
             if rc != 0:
                 errors.append("interpreter %d (hash seed %d) exited %d: %s" % (i, h, rc, err[-800:]))
@@ -239,7 +253,9 @@ def _short(r):
 
 # ---------------------------------------------------------------- minimise / replay
 def still_differs(world, ha, hb, workdir, inv):
-    res, errs = run_servers([world], [ha, hb], workdir, parallel=2, timeout=120)
+    shutil.rmtree(workdir, ignore_errors=True)        # fresh private directories per trial
+    res, errs = run_servers([world], [ha, hb], workdir, parallel=2, timeout=120,
+                            after={1: 0} if ha == hb else None)
     if errs or 0 not in res or 1 not in res:
         return False
     if inv == "D2":
@@ -274,7 +290,8 @@ def replay(path):
     wd = os.path.join(procs.scratch_top(), "c19.%07d" % os.getpid())
     try:
         ha, hb = doc["hashseeds"]
-        res, errs = run_servers([dict(doc["world"], verbose=True)], [ha, hb], wd, parallel=2, timeout=300)
+        res, errs = run_servers([dict(doc["world"], verbose=True)], [ha, hb], wd, parallel=2, timeout=300,
+                                after={1: 0} if ha == hb else None)
         if errs:
             print("HARNESS-ERROR " + "; ".join(errs))
             return 2
@@ -306,7 +323,7 @@ def main(a, seed):
     wd = os.path.join(procs.scratch_top(), "c19.%07d" % os.getpid())
     harness = []
     try:
-        results, errs = run_servers(worlds, hs_all, wd, parallel=a.workers)
+        results, errs = run_servers(worlds, hs_all, wd, parallel=a.workers, after={len(hs_all) - 1: 0})
         harness += errs
         if len(results) < len(hs_all):
             viol, stats = [], {}
@@ -331,8 +348,9 @@ def main(a, seed):
             w = worlds[v["world"]]
             ha, hb = hs_all[v["a"]], hs_all[v["b"]]
             if v["inv"] == "D1" and ha == hb:
-                v["detail"] = "same hash seed, different result (non-hash nondeterminism): " + v["detail"]
-            small = minimise(w, ha, hb, wd, v["inv"]) if ha != hb or v["inv"] == "D2" else w
+                v["detail"] = ("same hash seed, second run after the first on the same machine gives a different "
+                               "result (run-to-run nondeterminism): " + v["detail"])
+            small = minimise(w, ha, hb, os.path.join(wd, "min"), v["inv"])
             os.makedirs(os.path.join(OUT, "replays"), exist_ok=True)
             path = os.path.join(OUT, "replays", "C19-%d-%d.json" % (seed, v["world"]))
             with open(path, "w") as f:
@@ -340,7 +358,7 @@ def main(a, seed):
                            "violation": v, "original_items": len(w["script"]["items"]),
                            "minimised_items": len(small["script"]["items"])}, f, indent=1)
             # confirm in two brand-new interpreters
-            if still_differs(small, ha, hb, wd, v["inv"]):
+            if still_differs(small, ha, hb, os.path.join(wd, "confirm"), v["inv"]):
                 reported.append((v, path))
             else:
                 harness.append("world %d: violation %s did not reproduce in fresh interpreters" % (v["world"], v["inv"]))
